@@ -45,7 +45,7 @@ func parseSynDirectives(path, pkgPath string, lines []string) []*SynDirective {
 			if !strings.HasPrefix(t, pfx) {
 				continue
 			}
-			rest := strings.TrimPrefix(t, pfx)
+			rest := " " + strings.TrimPrefix(t, pfx)
 			d := &SynDirective{Kind: kind, Pkg: pkgPath, File: path, Line: i + 1}
 			if idx := strings.Index(rest, " prop "); idx >= 0 {
 				for _, p := range strings.FieldsFunc(rest[idx+6:], func(r rune) bool { return r == ',' || r == ' ' }) {
